@@ -31,9 +31,17 @@ func SideVariadicNonEmpty(rel, name string) SideFn {
 				if o == nil || o.Origin() != obj {
 					continue
 				}
-				n++
 				args := ci.Common().Args
 				last := args[len(args)-1]
+				// an instantiation wrapper forwarding its own variadic parameter is not a call site
+				fwd := last
+				if ct, isCT := fwd.(*ssa.ChangeType); isCT {
+					fwd = ct.X
+				}
+				if p, isParam := fwd.(*ssa.Parameter); isParam && p.Parent() == fn && fn.Signature.Variadic() && (fn.Synthetic != "" || (fn.Origin() != nil && fn.Origin().Object() == obj)) {
+					continue
+				}
+				n++
 				sl, ok := last.(*ssa.Slice)
 				if !ok {
 					if core.IsNilConst(last) {
